@@ -326,6 +326,37 @@ func CheckC16(c *Ctx) (*Outcome, error) {
 			}
 			c.Stats.Add("c16.custom_cli_histories", int64(len(hs)))
 		}
+		if i%5 == 3 {
+			// the same enumeration with build tags in the environment of the go command
+			// (GOFLAGS=-tags=...): tags whose names merely CONTAIN goverter's build tag. The
+			// -tags flag goverter passes replaces them; the complementary tag must still be in
+			// force for both loads.
+			for _, h := range hs {
+				for k := range h.Ops {
+					if g := h.Ops[k].Gen; g != nil {
+						tags := "goverter"
+						if h.World.BuildTags != nil {
+							tags = *h.World.BuildTags
+						}
+						if g.BuildTags != nil {
+							tags = *g.BuildTags
+						}
+						if tags == "" {
+							continue
+						}
+						var hostile []string
+						for _, t := range strings.Split(tags, ",") {
+							hostile = append(hostile, "net"+strings.TrimSpace(t)+"_dev")
+						}
+						if g.Env == nil {
+							g.Env = map[string]string{}
+						}
+						g.Env["GOFLAGS"] = "-tags=" + strings.Join(hostile, ",")
+					}
+				}
+			}
+			c.Stats.Add("c16.goflags_tags_histories", int64(len(hs)))
+		}
 		c.Stats.Add("c16.prior_state_enumeration_histories", int64(len(hs)))
 		return hs, nil
 	}, JudgeC16, note)
